@@ -24,7 +24,11 @@ import (
 
 	"github.com/openconfig/gnmi/client"
 	fclient "github.com/openconfig/gnmi/client/fake"
+	gclient "github.com/openconfig/gnmi/client/gnmi"
+	gpb "github.com/openconfig/gnmi/proto/gnmi"
 	"github.com/openconfig/gnmi/zz_verif/vh"
+	"google.golang.org/grpc"
+	"google.golang.org/grpc/metadata"
 )
 
 // Item is what one Recv of the scripted transport does.
@@ -67,7 +71,8 @@ type Ev struct {
 // Case is one scenario; Trace is what was observed.
 type Case struct {
 	Family   string    `json:"family"`
-	Kind     string    `json:"kind"` // base cache rebase recache
+	Kind     string    `json:"kind"`  // base cache rebase recache
+	Inner    string    `json:"inner"` // decoding side of the transport: fake (client/fake) or gnmi (client/gnmi)
 	Attempts []Attempt `json:"attempts"`
 	Ops      []Act     `json:"ops"`
 	Trace    []Ev      `json:"trace,omitempty"`
@@ -248,7 +253,8 @@ type impl struct {
 	k      int
 	ctx    context.Context
 	a      Attempt
-	inner  *fclient.Client
+	inner  client.Impl
+	gs     *gstream // only with the gnmi decoder
 	pos    int
 	closed chan struct{}
 	once   sync.Once
@@ -290,7 +296,63 @@ func factory(ctx context.Context, d client.Destination) (client.Impl, error) {
 			ups = append(ups, client.Update{Path: []string{"u", strconv.Itoa(k), strconv.Itoa(i), strconv.Itoa(j)}, TS: time.Unix(0, int64(1000*k+10*i+j)), Val: int64(j)})
 		}
 	}
-	return &impl{s: s, k: k, ctx: ctx, a: a, inner: &fclient.Client{Context: ctx, Updates: ups}, closed: make(chan struct{})}, nil
+	m := &impl{s: s, k: k, ctx: ctx, a: a, closed: make(chan struct{})}
+	if s.c.Inner == "gnmi" {
+		m.gs = &gstream{ctx: ctx}
+		m.inner = gclient.VerifNewC18(&gstub{st: m.gs})
+	} else {
+		m.inner = &fclient.Client{Context: ctx, Updates: ups}
+	}
+	return m, nil
+}
+
+// gstub / gstream stand for the grpc side of client/gnmi: a stream whose
+// responses are queued by the scripted transport just before it calls Recv.
+type gstub struct{ st *gstream }
+
+func (g *gstub) Capabilities(context.Context, *gpb.CapabilityRequest, ...grpc.CallOption) (*gpb.CapabilityResponse, error) {
+	return nil, errImpl
+}
+func (g *gstub) Get(context.Context, *gpb.GetRequest, ...grpc.CallOption) (*gpb.GetResponse, error) {
+	return nil, errImpl
+}
+func (g *gstub) Set(context.Context, *gpb.SetRequest, ...grpc.CallOption) (*gpb.SetResponse, error) {
+	return nil, errImpl
+}
+func (g *gstub) Subscribe(ctx context.Context, _ ...grpc.CallOption) (gpb.GNMI_SubscribeClient, error) {
+	return g.st, nil
+}
+
+type gstream struct {
+	ctx context.Context
+	q   []*gpb.SubscribeResponse
+}
+
+func (g *gstream) Send(*gpb.SubscribeRequest) error { return nil }
+func (g *gstream) Recv() (*gpb.SubscribeResponse, error) {
+	if len(g.q) == 0 {
+		return nil, errImpl
+	}
+	r := g.q[0]
+	g.q = g.q[1:]
+	return r, nil
+}
+func (g *gstream) Header() (metadata.MD, error) { return nil, nil }
+func (g *gstream) Trailer() metadata.MD         { return nil }
+func (g *gstream) CloseSend() error             { return nil }
+func (g *gstream) Context() context.Context     { return g.ctx }
+func (g *gstream) SendMsg(interface{}) error    { return nil }
+func (g *gstream) RecvMsg(interface{}) error    { return errImpl }
+
+func gnmiMsg(k, i, n int) *gpb.SubscribeResponse {
+	no := &gpb.Notification{Timestamp: int64(1000*k + 10*i)}
+	for j := 0; j < n; j++ {
+		no.Update = append(no.Update, &gpb.Update{
+			Path: &gpb.Path{Elem: []*gpb.PathElem{{Name: "u"}, {Name: strconv.Itoa(k)}, {Name: strconv.Itoa(i)}, {Name: strconv.Itoa(j)}}},
+			Val:  &gpb.TypedValue{Value: &gpb.TypedValue_IntVal{IntVal: int64(j)}},
+		})
+	}
+	return &gpb.SubscribeResponse{Response: &gpb.SubscribeResponse_Update{Update: no}}
 }
 
 func (m *impl) Subscribe(ctx context.Context, q client.Query) error {
@@ -311,11 +373,23 @@ func (m *impl) Recv() error {
 		return errImpl
 	}
 	if i >= len(m.a.Items) {
+		if m.gs != nil {
+			// a STREAM query goes on after the sync response; the script ends here
+			m.gs.q = append(m.gs.q, &gpb.SubscribeResponse{Response: &gpb.SubscribeResponse_SyncResponse{SyncResponse: true}})
+			if err := m.inner.Recv(); err != nil {
+				return err
+			}
+			return client.ErrStopReading
+		}
 		return m.inner.Recv() // Sync, ErrStopReading
 	}
 	it := m.a.Items[i]
 	switch it.K {
 	case "msg":
+		if m.gs != nil {
+			m.gs.q = append(m.gs.q, gnmiMsg(m.k, i, it.N))
+			return m.inner.Recv()
+		}
 		var err error
 		for j := 0; j < it.N; j++ { // the fake decodes one notification per call
 			if err = m.inner.Recv(); err != nil {
@@ -356,6 +430,9 @@ func (m *impl) Recv() error {
 func (m *impl) Close() error {
 	m.s.log(Ev{T: "implclose", K: m.k})
 	m.once.Do(func() { close(m.closed) })
+	if m.gs != nil {
+		return nil // client/gnmi's Close only closes the grpc connection, which the stub does not have
+	}
 	return m.inner.Close()
 }
 
@@ -384,6 +461,9 @@ var hangCount int32
 const maxHangs = 40
 
 func runCase(c Case) []Ev {
+	if c.Inner == "" {
+		c.Inner = "fake"
+	}
 	s := &scen{c: c, id: fmt.Sprintf("s%d", atomic.AddUint64(&scenSeq, 1)), fired: map[int]bool{},
 		closeDone: make(chan struct{}), dead: make(chan struct{})}
 	scens.Store(s.id, s)
@@ -703,7 +783,7 @@ func gates(as []Attempt, reconnect bool) []string {
 
 var kinds = []string{"rebase", "recache", "base", "cache"}
 
-func randScript(r *vh.Rand) []Attempt {
+func randScript(r *vh.Rand, allowEmpty bool) []Attempt {
 	n := 1 + r.Intn(4)
 	as := make([]Attempt, n)
 	for k := range as {
@@ -718,7 +798,11 @@ func randScript(r *vh.Rand) []Attempt {
 		var its []Item
 		m := r.Intn(5)
 		for i := 0; i < m; i++ {
-			its = append(its, Item{K: "msg", N: 1 + r.Pick(5, 2, 1)})
+			n := 1 + r.Pick(5, 2, 1)
+			if allowEmpty && r.Chance(1, 6) {
+				n = 0 // a notification without updates (the gnmi decoder still reports Connected)
+			}
+			its = append(its, Item{K: "msg", N: n})
 		}
 		switch r.Pick(3, 2, 2, 3, 2) {
 		case 0:
@@ -770,7 +854,7 @@ func nontrivial(c Case) bool {
 }
 
 func canonical(c Case) string {
-	b, _ := json.Marshal([]interface{}{c.Kind, c.Attempts, c.Ops})
+	b, _ := json.Marshal([]interface{}{c.Kind, c.Inner, c.Attempts, c.Ops})
 	return string(b)
 }
 
@@ -787,6 +871,7 @@ type emitter struct {
 func (e *emitter) emit(c Case) {
 	e.cf.Add(caseTerm(c), c)
 	e.meta.Hist("kind:" + c.Kind)
+	e.meta.Hist("decoder:" + c.Inner)
 	for _, a := range c.Ops {
 		e.meta.Hist("act:" + a.What + "@" + strings.SplitN(a.Gate, ":", 2)[0])
 	}
@@ -891,31 +976,37 @@ func main() {
 			delays = []int{0, 300, 2000}
 		}
 		for _, as := range scripts() {
-			for _, kind := range kinds {
-				rc := strings.HasPrefix(kind, "re")
-				for _, g := range gates(as, rc) {
-					for _, what := range []string{"close", "cancel"} {
-						for _, d := range delays {
-							if strings.HasPrefix(g, "sleep") {
-								d += 500
+			for ki, kind := range kinds {
+				for _, inner := range []string{"fake", "gnmi"} {
+					if !o.Thorough() && ki%2 == 1 && inner == "gnmi" {
+						continue // quick tier: the cache kinds only with the fake decoder
+					}
+					rc := strings.HasPrefix(kind, "re")
+					for _, g := range gates(as, rc) {
+						for _, what := range []string{"close", "cancel"} {
+							for _, d := range delays {
+								if strings.HasPrefix(g, "sleep") {
+									d += 500
+								}
+								cs = append(cs, Case{Family: "systematic", Kind: kind, Inner: inner, Attempts: as, Ops: []Act{{Gate: g, What: what, Delay: d}}})
 							}
-							cs = append(cs, Case{Family: "systematic", Kind: kind, Attempts: as, Ops: []Act{{Gate: g, What: what, Delay: d}}})
 						}
 					}
+					cs = append(cs, Case{Family: "systematic", Kind: kind, Inner: inner, Attempts: as})
 				}
-				cs = append(cs, Case{Family: "systematic", Kind: kind, Attempts: as})
 			}
 		}
 		r := vh.NewRand(o.Seed)
-		nrand := 1500
+		nrand := 2500
 		if o.Thorough() {
 			nrand = 30000
 		}
 		for i := 0; i < nrand; i++ {
 			rr := r.Fork()
 			kind := kinds[rr.Pick(4, 3, 2, 1)]
-			as := randScript(rr)
-			cs = append(cs, Case{Family: "random", Kind: kind, Attempts: as, Ops: randActs(rr, as, strings.HasPrefix(kind, "re"))})
+			inner := []string{"fake", "gnmi"}[rr.Intn(2)]
+			as := randScript(rr, inner == "gnmi")
+			cs = append(cs, Case{Family: "random", Kind: kind, Inner: inner, Attempts: as, Ops: randActs(rr, as, strings.HasPrefix(kind, "re"))})
 		}
 	}
 	runAll(cs, par)
